@@ -63,7 +63,12 @@ type C09Scenario struct {
 	Zone     map[string][]string `json:"zone"`      // name -> addresses
 	ZoneFail []string            `json:"zone_fail"` // names whose lookup fails
 	Attempts []C09Attempt        `json:"attempts"`
-	Net      verifsimnet.Profile `json:"net"`
+	// second phase, same server process: some authorized-keys files are replaced
+	// (every version carries the same modification time, as after mv/cp -p/rsync -t)
+	// and then Attempts2 are made, judged by the files as they are then
+	Files2    []C09File           `json:"files2,omitempty"`
+	Attempts2 []C09Attempt        `json:"attempts2,omitempty"`
+	Net       verifsimnet.Profile `json:"net"`
 }
 
 // key pool: 0..5 ed25519 (shared with world.go), 6..7 ecdsa, 8 rsa
@@ -183,6 +188,29 @@ func c09Gen(r *Rand, tier string, i int) Scenario {
 		}
 		sc.Attempts = append(sc.Attempts, at)
 	}
+	if r.Bool(0.3) && len(sc.Files) > 0 {
+		// replace one or two users' files: drop a key, add another, or swap all
+		for _, f := range sc.Files {
+			if !r.Bool(0.6) {
+				continue
+			}
+			g := C09File{User: f.User, CRLF: f.CRLF, FinalNewline: f.FinalNewline}
+			for _, l := range f.Lines {
+				if l.Kind == "key" && r.Bool(0.5) {
+					continue // key removed
+				}
+				g.Lines = append(g.Lines, l)
+			}
+			if r.Bool(0.7) {
+				g.Lines = append(g.Lines, C09Line{Kind: "key", Key: r.Intn(c09PoolSize)})
+			}
+			sc.Files2 = append(sc.Files2, g)
+		}
+		n2 := r.Range(1, 6)
+		for a := 0; a < n2; a++ {
+			sc.Attempts2 = append(sc.Attempts2, C09Attempt{User: c09Users[r.Intn(nu)], Auth: "key", Key: r.Intn(c09PoolSize), From: r.Intn(len(c09ClientIPs)), StartMs: PickOf(r, 0, 0, 1, 10)})
+		}
+	}
 	sc.Net = verifsimnet.Profile{LatencyMs: PickOf(r, 0, 1)}
 	return sc
 }
@@ -216,6 +244,27 @@ func (f *C09File) render() []byte {
 
 // expected is the decision table written from the statement.
 func (sc *C09Scenario) expected(at C09Attempt) (grant bool, why string) {
+	return sc.expectedIn(at, sc.Files)
+}
+
+// filesAfter is the set of authorized-keys files after the replacement.
+func (sc *C09Scenario) filesAfter() []C09File {
+	out := append([]C09File(nil), sc.Files2...)
+	for _, f := range sc.Files {
+		found := false
+		for _, g := range sc.Files2 {
+			if g.User == f.User {
+				found = true
+			}
+		}
+		if !found {
+			out = append(out, f)
+		}
+	}
+	return out
+}
+
+func (sc *C09Scenario) expectedIn(at C09Attempt, files []C09File) (grant bool, why string) {
 	switch at.User {
 	case config.HealthUser:
 		if at.Auth == "password" && at.Password == config.HealthUser {
@@ -248,7 +297,7 @@ func (sc *C09Scenario) expected(at C09Attempt) (grant bool, why string) {
 	if at.Auth != "key" {
 		return false, "ordinary users cannot log in with a password"
 	}
-	for _, f := range sc.Files {
+	for _, f := range files {
 		if f.User != at.User {
 			continue
 		}
@@ -262,7 +311,7 @@ func (sc *C09Scenario) expected(at C09Attempt) (grant bool, why string) {
 }
 
 func (sc *C09Scenario) malformedFile(user string) bool {
-	for _, f := range sc.Files {
+	for _, f := range append(append([]C09File(nil), sc.Files...), sc.Files2...) {
 		if f.User == user {
 			for _, l := range f.Lines {
 				if l.Kind == "garbage" {
@@ -301,7 +350,7 @@ func c09Run(t *testing.T, s Scenario, src verifsim.DecisionSource, keep bool) *R
 		err     string
 		msgs    []string
 	}
-	outs := make([]outcome, len(sc.Attempts))
+	outs := make([]outcome, len(sc.Attempts)+len(sc.Attempts2))
 	res.Outcome = RunSim(t, opts, func(w *World) {
 		secret := w.WriteFile("secret.log", []byte(c09Secret+"\n"))
 		w.StartSSHWorld([]string{"srv1"}, ServerCfg{MaxConns: 50}, func() {
@@ -322,8 +371,14 @@ func c09Run(t *testing.T, s Scenario, src verifsim.DecisionSource, keep bool) *R
 			must(json.Unmarshal(b, &config.Server.Continuous))
 		})
 		// authorized_keys files (StartSSHWorld installed one for simuser; irrelevant here)
+		fixedTime := time.Date(2024, 5, 1, 12, 0, 0, 0, time.UTC)
+		writeKeys := func(f C09File) {
+			p := filepath.Join(w.Dir, "cache", f.User+".authorized_keys")
+			must(os.WriteFile(p, f.render(), 0600))
+			must(os.Chtimes(p, fixedTime, fixedTime))
+		}
 		for _, f := range sc.Files {
-			must(os.WriteFile(filepath.Join(w.Dir, "cache", f.User+".authorized_keys"), f.render(), 0600))
+			writeKeys(f)
 		}
 		for name, ips := range sc.Zone {
 			var l []net.IP
@@ -341,40 +396,50 @@ func c09Run(t *testing.T, s Scenario, src verifsim.DecisionSource, keep bool) *R
 			w.Net.AddHost(h, clientIP(i))
 			nodes = append(nodes, w.Sim.NewNode(h, "client", h))
 		}
-		done := make(chan struct{}, len(sc.Attempts))
-		for ai, at := range sc.Attempts {
-			ai, at := ai, at
-			w.Sim.GoOn(nodes[at.From], "harness/attempt", func() {
-				defer func() { done <- struct{}{} }()
-				w.Sleep(time.Duration(at.StartMs) * time.Millisecond)
-				var auth []gossh.AuthMethod
-				if at.Auth == "key" {
-					auth = []gossh.AuthMethod{gossh.PublicKeys(poolKey(at.Key).Signer)}
-				} else {
-					auth = []gossh.AuthMethod{gossh.Password(at.Password)}
-				}
-				rs := w.RawDial(fmt.Sprintf("a%d", ai), "srv1", at.User, auth, 10*time.Second)
-				if rs.DialErr != nil {
-					outs[ai].err = rs.DialErr.Error()
-					return
-				}
-				outs[ai].granted = true
-				if len(at.Commands) > 0 {
-					if err := rs.Shell(); err == nil {
-						for _, c := range at.Commands {
-							rs.Command(strings.ReplaceAll(c, "SECRET", secret))
-							w.Sleep(50 * time.Millisecond)
-						}
-						w.Sleep(500 * time.Millisecond)
-						outs[ai].msgs = rs.Messages()
+		done := make(chan struct{}, len(sc.Attempts)+len(sc.Attempts2))
+		runAttempts := func(base int, attempts []C09Attempt) {
+			for ai, at := range attempts {
+				ai, at := base+ai, at
+				w.Sim.GoOn(nodes[at.From], "harness/attempt", func() {
+					defer func() { done <- struct{}{} }()
+					w.Sleep(time.Duration(at.StartMs) * time.Millisecond)
+					var auth []gossh.AuthMethod
+					if at.Auth == "key" {
+						auth = []gossh.AuthMethod{gossh.PublicKeys(poolKey(at.Key).Signer)}
+					} else {
+						auth = []gossh.AuthMethod{gossh.Password(at.Password)}
 					}
-				}
-				rs.Close()
-			})
+					rs := w.RawDial(fmt.Sprintf("a%d", ai), "srv1", at.User, auth, 10*time.Second)
+					if rs.DialErr != nil {
+						outs[ai].err = rs.DialErr.Error()
+						return
+					}
+					outs[ai].granted = true
+					if len(at.Commands) > 0 {
+						if err := rs.Shell(); err == nil {
+							for _, c := range at.Commands {
+								rs.Command(strings.ReplaceAll(c, "SECRET", secret))
+								w.Sleep(50 * time.Millisecond)
+							}
+							w.Sleep(500 * time.Millisecond)
+							outs[ai].msgs = rs.Messages()
+						}
+					}
+					rs.Close()
+				})
+			}
+			for range attempts {
+				verifsim.Yield("harness/waitattempts")
+				<-done
+			}
 		}
-		for range sc.Attempts {
-			verifsim.Yield("harness/waitattempts")
-			<-done
+		runAttempts(0, sc.Attempts)
+		if len(sc.Attempts2) > 0 {
+			for _, f := range sc.Files2 {
+				writeKeys(f)
+				w.Sim.Fault("authorized-keys.replaced")
+			}
+			runAttempts(len(sc.Attempts), sc.Attempts2)
 		}
 	})
 	res.NonTrivial = len(sc.Attempts) >= 2
@@ -388,8 +453,13 @@ func c09Run(t *testing.T, s Scenario, src verifsim.DecisionSource, keep bool) *R
 		}
 		return res
 	}
-	for ai, at := range sc.Attempts {
+	all := append(append([]C09Attempt(nil), sc.Attempts...), sc.Attempts2...)
+	for ai, at := range all {
 		want, why := sc.expected(at)
+		if ai >= len(sc.Attempts) {
+			want, why = sc.expectedIn(at, sc.filesAfter())
+			why += " (after the authorized-keys files were replaced)"
+		}
 		got := outs[ai]
 		if got.granted && !want {
 			res.Class = "session-granted-wrongly"
